@@ -78,6 +78,15 @@ def mask_support_rule(chk, repo, clause):
                 not any(is_app(x, ('cast', 'm:astype', 'floor', 'round', 'ceil', 'fix')) for x in nf.value_atoms(src))
             if not good:
                 det = f'support taken from {fmt(tested)[:120]}'
+        elif a is not None and is_app(a, ('ne', 'lt', 'le', 'gt', 'ge', 'eq')):
+            # written as a comparison: only `values != 0` is the support - `values > 0` leaves out the negative samples (a pi
+            # phase step written as a sign flip, the real part of a complex amplitude), which then vanish from the field
+            zero = [x for x in a[2] if isinstance(x, Poly) and x.is_zero()]
+            src = [x for x in a[2] if not (isinstance(x, Poly) and x.is_zero())]
+            good = a[1] == 'ne' and len(zero) == 1 and len(src) == 1 and \
+                not any(is_app(x, ('cast', 'm:astype', 'floor', 'round', 'ceil', 'fix', 'abs_same')) for x in nf.value_atoms(src[0]))
+            if not good:
+                det = f'stored mask {fmt(v)[:120]}: not the set of non-zero samples'
         else:
             r = Ranges()
             if r.of(v).binary and not any(is_app(x, ('cast', 'm:astype')) for x in nf.value_atoms(v)):
